@@ -23,3 +23,8 @@ add("C05", "PBT with reference interpreter: nearest-enclosing-provider computed 
     "Generated component programs with nested / shadowing / looped / page-level / in-template {% provide %} blocks and injecting components are rendered under both context behaviours; the multiset of values returned by inject() (payload, default or KeyError) and the page text must equal the reference interpreter's; sequences of 2-4 renders (optionally with a failing render in between) in one process without resetting the library's registries must equal the solo renders.",
     "Trusted: reference interpreter (providers dynamically scoped along the rendered structure). {% provide %} around {% fill %} tags is not generated.",
     engine="PG")
+
+add("C03", "PBT with reference interpreter over colliding names (numbered probes) + 2-run non-interference (metamorphic) + caller-Context snapshot equality",
+    "Generated component programs whose page variables, component data, with/for bindings at all positions and slot-data aliases share a pool of three names are rendered under both context behaviours (with and without `only`); page text / per-probe values must equal the reference interpreter that encodes the scoping order of the property statement; in isolated mode the output must not change when an unpassed page variable changes; the caller's Context (dicts, render_context depth, template) must be unchanged after render.",
+    "Trusted: reference interpreter. Where the statement leaves the winner of a collision open (see evidence.assumptions) the model uses wildcards instead of a verdict.",
+    engine="PG")
